@@ -86,6 +86,15 @@ def findings():
           "(slogdet then returns a phase that is not the determinant's)", branch_mix,
           "trace(log(Dense(complex64 [[-0.5,1+1j],[0.5-0.5j,-1.5]]), Arnoldi(max_iters=2)), Exact())", "log(1/4) +- i*pi")
 
+    def scal_ann():
+        A = ops.Adjoint(ops.BlockDiag((3 + 0.25j) * ops.Identity((1, 1), np.complex128), multiplicities=[1]))
+        s_, l_ = slogdet(A)
+        want = (3 - 0.25j) / abs(3 - 0.25j)
+        return not abs(complex(s_) - want) < 1e-9, complex(s_)
+    probe("scalar_keeps_annotations", "a complex (or negative) scalar times a PSD / self-adjoint operator keeps the annotation (recorded under C05/C06): behind a lazy Adjoint / Transpose "
+          "wrapper the self-adjoint shortcut of the backward product is taken and the wrapper represents the un-conjugated matrix, so slogdet returns the phase of det(B) instead of conj", scal_ann,
+          "slogdet(Adjoint(BlockDiag((3+0.25j)*Identity(1x1))))", "phase (3-0.25j)/|3-0.25j|")
+
     def kronpow():
         s, l = slogdet(ops.Kronecker(ops.Diagonal(np.array([-1.])), ops.Identity((3, 3), np.float64)))
         s2, l2 = slogdet(ops.Kronecker(ops.Diagonal(np.array([1j, 1.])), ops.Diagonal(np.array([2., 1j, 1.]))))
@@ -178,6 +187,19 @@ def gen_case(ctx, krylov, present=()):
     return dict(recipe=t, alg=name, trace=trace, tol=(r.choice([None, None, None, 1e-8, 1e-10]) if krylov else None), wide=wide, extreme=bool(extreme))
 
 
+def false_selfadjoint_behind_wrapper(A, inside=False):
+    """is there, behind a lazy Transpose / Adjoint, an operator annotated self-adjoint whose matrix is not Hermitian?"""
+    from cola import ops
+    from cola.annotations import SelfAdjoint
+    wrapper = isinstance(A, (ops.Transpose, ops.Adjoint))
+    if inside and A.isa(SelfAdjoint) and not wrapper:
+        D = np.asarray(A.to_dense())
+        if np.abs(D - D.conj().T).max() > 1e-6 * (1e-300 + np.abs(D).max()):
+            return True
+    kids = ([A.A] if wrapper else []) + list(getattr(A, "Ms", []) or [])
+    return any(false_selfadjoint_behind_wrapper(k, inside or wrapper) for k in kids if isinstance(k, ops.LinearOperator))
+
+
 def tol_of(recipe, logabs, case=None):
     f32 = any(d in ("float32", "complex64") for d in C.rdts(recipe))
     base = 2e-4 if f32 else 1e-9
@@ -258,7 +280,7 @@ def run(ctx):
     n_struct = ctx.budget(420, 5000)
     n_kry = ctx.budget(80, 800)
     n_grad = ctx.budget(70, 600)
-    stats = dict(skipped_oracle_hyp=0, expected_assert=0, flag_attributed=0,
+    stats = dict(skipped_oracle_hyp=0, skipped_false_selfadjoint_behind_wrapper=0, expected_assert=0, flag_attributed=0,
                  oracle_verified=0, krylov_cases=0, arnoldi_branch_cut_skipped=0, krylov_complex_trace_skipped=0, krylov_complex_trace_oracle_verified=0, krylov_hyp_failed=0,
                  graded_cases=0, krylov_e2e_checked=0, krylov_e2e_unconverged_regime=0, unary_nodes_checked=0, unary_near_tie=0, unary_nonfinite=0,
                  unary_oracle_error=0, unary_ritz_values_masked=0, unary_ritz_values_between_cutoff_and_tol=0)
@@ -284,6 +306,9 @@ def run(ctx):
                 continue
             c["condD"] = float("inf")
         if not (c.get("wide") or c["condD"] <= (1e13 if kry == "graded" else 1e5)) or not abs(np.linalg.slogdet(D)[1]) < 2e4:
+            continue
+        if "scalar_keeps_annotations" in present and false_selfadjoint_behind_wrapper(C.build(c["recipe"])):
+            stats["skipped_false_selfadjoint_behind_wrapper"] += 1   # region spoiled by a recorded flag
             continue
         o = run_impl(c)
         if "skip" in o:
